@@ -316,6 +316,11 @@ func runChild(sp *propSpec, oc *childOutcome, tier string, seed uint64, work str
 	}
 	args = append(args, r.Args...)
 	cmd := exec.Command("timeout", args...)
+	if r.MemLimitMB > 0 {
+		// the limit is set by the shell that then becomes `timeout`: the monitor and its own children inherit it
+		sh := fmt.Sprintf("ulimit -v %d && exec timeout \"$@\"", r.MemLimitMB*1024)
+		cmd = exec.Command("bash", append([]string{"-c", sh, "timeout"}, args...)...)
+	}
 	cmd.Dir = work
 	env := os.Environ()
 	env = append(env, "GOTRACEBACK=all")
